@@ -15,6 +15,8 @@ const (
 	vnRelex = 8
 )
 
+var vnTruncHeads = []string{"naam\xF0\xA0\x80", "a\xE2\x80", "a\xC3", "\xF0\xA0", "`\xF0\xA0\x80", "'\xF0\xA0\x80", "//\xF0\xA0\x80", "/*\xF0\xA0\x80", "#\xF0\xA0\x80", "a.\xF0\x9F\x98", "\\u{\xF0\xA0\x80", "1\xF0\xA0\x80", "\xE1\x9B", "a\xF0\x90\x80"}
+
 func vnASCII(b []byte) {
 	if vParam("ascii", 1) != 0 {
 		for i := range b {
@@ -29,6 +31,12 @@ func vnLexW(mode int) {
 	n := vRange("n", 0, vParam("N", 2))
 	b := vBytes("b", n)
 	vnASCII(b)
+	if vParam("TRUNC", 0) != 0 {
+		// a concrete head that ends in a truncated multi-byte sequence, then the symbolic bytes
+		pre := vnTruncHeads[vRange("trunc", 0, len(vnTruncHeads)-1)]
+		b = append([]byte(pre), b...)
+		n = len(b)
+	}
 	orig := append([]byte(nil), b...)
 	z := parse.NewInputBytes(append(make([]byte, 0, n+1), b...))
 	whole := z.Bytes()
